@@ -24,7 +24,7 @@ def run(pid, tier, replay=None):
     runs = [
         ("list", "ListMC", "5555555", ["CONSTANTS K = %d" % (3 if quick else 4)], "ListTrace"),
         ("slist", "SlistMC", "4444444", ["CONSTANTS K = %d" % (4 if quick else 5)], "ListTrace"),
-        ("que-short", "QueMC", "6666666", ["CONSTANTS", " Vals = {10, 20, 21}", " MaxNodes = %d" % (4 if quick else 5), " Sizes = {1, 8}", " Idx <- IdxShort"], "QueTrace"),
+        ("que-short", "QueMC", "6666666", ["CONSTANTS", " Vals = {10, 30, 31}", " MaxNodes = %d" % (4 if quick else 5), " Sizes = {1, 8}", " Idx <- IdxShort"], "QueTrace"),
         ("que-long", "QueMC", "6666666", ["CONSTANTS", " Vals = {10}", " MaxNodes = %d" % (18 if quick else 26), " Sizes = {1}", " Idx <- IdxLong"], "QueTrace"),
     ]
     ck.assumptions += [
